@@ -64,7 +64,7 @@ def gen_case(rng, k):
         else:
             dx[0], dy[0], dz[0] = float(2 * rng.randint(3, 20)), float(2 * rng.randint(3, 20)), float(2 * rng.randint(2, 9))
             org = [-dx[0] / 2 if z in (1, 3) else org[0], -dy[0] / 2 if z in (1, 3) else org[1], dz[0] / 2 if z in (2, 3) else org[2]]
-    rot = rng.choice([0.0, 0.0, 17.0, -17.0, 30.0, 90.0, 123.0])
+    rot = rng.choice([0.0, 0.0, 17.0, -17.0, 30.0, 90.0, 123.0, 12.3456, -33.337, round(rng.uniform(-179.0, 179.0), 4)])  # (angles that are not multiples of 0.01 degree too)
     atm = rng.randint(0, 2)
     conv = rng.randint(0, 3) if not viafile else rng.randint(0, 2)
     if conv == 1 and (nx + 1) * (ny + 1) > 99:
